@@ -717,6 +717,26 @@ pub fn expected_sources(entries: &[FsEntry], input: &str, input_is_file: bool) -
 }
 
 /// Lexical normalisation of a relative `/`-separated path (`./`, `a/../b`).
+/// Lexical normalisation only (what darklua's `normalize_path` gives): `..` segments that
+/// climb above the start are kept.
+pub fn lexical_normalize(path: &str) -> String {
+    let mut parts: Vec<&str> = Vec::new();
+    for c in path.split('/') {
+        match c {
+            "" | "." => {}
+            ".." => {
+                if matches!(parts.last(), Some(&p) if p != "..") {
+                    parts.pop();
+                } else {
+                    parts.push("..");
+                }
+            }
+            other => parts.push(other),
+        }
+    }
+    parts.join("/")
+}
+
 pub fn normalize(path: &str) -> String {
     let mut parts: Vec<&str> = Vec::new();
     for c in path.split('/') {
@@ -731,6 +751,13 @@ pub fn normalize(path: &str) -> String {
             }
             other => parts.push(other),
         }
+    }
+    // a path that climbs above the simulated working directory and comes back into it
+    // (`../cwd/x`, `../../sim/cwd/x`) names `x`
+    let cwd: Vec<&str> = crate::simfs::SIM_CWD.split('/').filter(|c| !c.is_empty()).collect();
+    let ups = parts.iter().take_while(|p| **p == "..").count();
+    if ups > 0 && ups <= cwd.len() && parts.len() >= 2 * ups && parts[ups..2 * ups] == cwd[cwd.len() - ups..] {
+        parts.drain(..2 * ups);
     }
     parts.join("/")
 }
@@ -789,7 +816,11 @@ pub fn gen_invocation(
     allow_in_place: bool,
     allow_object: bool,
     backend: Backend,
+    allow_climb: bool,
 ) -> Invocation {
+    // spellings that go down, climb above the working directory and come back
+    let climb = allow_climb && backend == Backend::SimFs;
+    let cwd_name = crate::simfs::SIM_CWD.rsplit('/').next().unwrap_or("");
     let mut extra: Vec<FsEntry> = Vec::new();
     let config = match rng.below(if allow_object && !project.convert { 4 } else { 3 }) {
         0 => {
@@ -849,6 +880,14 @@ pub fn gen_invocation(
                 format!("{}/../{}", first, o)
             }
         }
+        3 if climb && rng.chance(1, 2) => {
+            let first = project.input.split('/').next().unwrap_or("").to_owned();
+            if first.is_empty() || first.contains('.') || project.input_is_file && !project.input.contains('/') {
+                format!("../{}/{}", cwd_name, o)
+            } else {
+                format!("{}/../../{}/{}", first, cwd_name, o)
+            }
+        }
         _ => o,
     });
     if let Some(output) = &output.as_ref().map(|o| normalize(o)) {
@@ -899,6 +938,14 @@ pub fn gen_invocation(
                 project.input.clone()
             } else {
                 format!("{}/../{}", first, project.input)
+            }
+        }
+        6 if climb && rng.chance(1, 2) => {
+            let first = project.input.split('/').next().unwrap_or("").to_owned();
+            if first.is_empty() || project.input_is_file && !project.input.contains('/') {
+                format!("../{}/{}", cwd_name, project.input)
+            } else {
+                format!("{}/../../{}/{}", first, cwd_name, project.input)
             }
         }
         _ => project.input.clone(),
